@@ -109,7 +109,7 @@ template <class C> struct Runner {
             if (what.empty()) {
                 C *ms = 0; led.clear_injection(); rc = A::ComposeQueryMallocExMm(&ms, &nodes[0], plus, nb, &led.mm);
                 if (rc != URI_SUCCESS || !ms) what = fmt("ComposeQueryMallocExMm rc=%d", rc);
-                else { Str got = narrow<C>(ms, ms + std::char_traits<C>::length(ms)); if (got != expect) what = "ComposeQueryMalloc text differs"; led.mm.free(&led.mm, ms); if (what.empty() && !led.live.empty()) what = "blocks outstanding after freeing the composed string"; }
+                else { Str got = narrow<C>(ms, ms + std::char_traits<C>::length(ms)); if (got != expect) what = "ComposeQueryMalloc text differs"; led.mm.free(&led.mm, ms); if (what.empty() && !led.live.empty()) what = "blocks outstanding after freeing the composed string"; if (what.empty() && !led.errors.empty()) what = "composing into the block the manager handed out: " + led.errors[0]; }
                 if (!led.live.empty() || !led.errors.empty()) led.reset();
             }
             // the same through the C library allocator: uriComposeQueryMalloc (both options on) / uriComposeQueryMallocEx
@@ -199,7 +199,7 @@ void big_sizes(Ctx &ctx, Local &lc) {
     }
 }
 
-static const char *KSET[] = { "", "a", "&", "=", " ", "+", "%", "\n", "\r\n", "a=b&c", "\xff" };
+static const char *KSET[] = { "", "a", "&", "=", " ", "+", "%", "\n", "\r\n", "a=b&c", "\xff", "\r \n" };
 void run(Ctx &ctx) {
     Local lc; Runner<char> ra(&ctx, &lc); Runner<wchar_t> rw(&ctx, &lc); SanWatch sw;
     std::vector<Item> items; for (auto k : KSET) { Item it; it.first = k; it.second.first = false; items.push_back(it); for (auto v : KSET) { it.second.first = true; it.second.second = v; items.push_back(it); } }
